@@ -1177,20 +1177,13 @@ func isRecvField(f *Fn, e ast.Expr) bool {
 
 // ---------- a located error is handed on, not retold ----------
 
-// noRewrapExceptions: one site, by design of the language: an error inside a pasted macro body is reported at the
-// PASTE directive, with the inner error's text as the message.
-var noRewrapExceptions = map[string]string{
-	"expansion of PASTE": "an error of a pasted directive is reported on its PASTE directive, with the rendered inner error as the message (pinned by the macro error tests)",
-}
-
 // ruleNoRewrap: a *jerr.JApiError carries its place (file, index, include chain). Building a new error from its text
 // - X.KeywordError(je.Error()) - moves the report to another place and repeats the chain inside the message. Errors of
 // the plain `error` type have no place of their own and are rightly given the directive's.
 func (c *Ctx) ruleNoRewrap() {
 	r := c.R
-	r.Rule("C07-NO-REWRAP", "no call that builds a *jerr.JApiError is given the text of another *jerr.JApiError (an argument <je>.Error() with je of that type): the inner error already says where the fault is, the new one would say somewhere else and carry the inner include chain inside its message; exception: the PASTE handler, which reports the error of a pasted body on the PASTE directive", 1)
-	n := 0
-	paste := c.pasteRoles().perDirective
+	r.Rule("C07-NO-REWRAP", "no call that builds a *jerr.JApiError is given the text of another *jerr.JApiError (an argument <je>.Error() with je of that type): the inner error already says where the fault is, the new one would say somewhere else and carry the inner include chain inside its message (the message alone, <je>.Msg, may be handed on: the PASTE handler reports the error of a pasted body on the PASTE directive that way)", 1)
+	n, ctors := 0, 0
 	for _, f := range c.libFns() {
 		pk := f.Pkg
 		ast.Inspect(f.Decl.Body, func(nd ast.Node) bool {
@@ -1202,6 +1195,7 @@ func (c *Ctx) ruleNoRewrap() {
 			if t == nil || !isJApiErrorPtr(t) {
 				return true
 			}
+			ctors++
 			for _, a := range call.Args {
 				ac, ok := ast.Unparen(a).(*ast.CallExpr)
 				if !ok || len(ac.Args) != 0 {
@@ -1216,16 +1210,16 @@ func (c *Ctx) ruleNoRewrap() {
 				}
 				n++
 				key := fmt.Sprintf("%s | %s(%s)", f.Name(), exprString(call.Fun), exprString(a))
-				if paste != nil && f.Obj == paste.Obj {
-					r.Ok("C07-NO-REWRAP", key, "named exception (expansion of PASTE): "+noRewrapExceptions["expansion of PASTE"], c.pos(call.Pos()))
-					continue
-				}
 				r.Bad("C07-NO-REWRAP", key, "a located error is turned into the message of a new error at another place: the report points at this directive instead of the one at fault, and the message contains the inner include chain a second time", c.pos(call.Pos()))
 			}
 			return true
 		})
 	}
+	if ctors < 20 {
+		r.Undecided("C07-NO-REWRAP", "sites", fmt.Sprintf("only %d calls that build a *jerr.JApiError found", ctors), "")
+		return
+	}
 	if n == 0 {
-		r.Undecided("C07-NO-REWRAP", "sites", "the PASTE handler's re-report was not found: the matcher no longer recognises the one site it is known to have", "")
+		r.Ok("C07-NO-REWRAP", "library", fmt.Sprintf("%d calls build a *jerr.JApiError; none is given the rendered text of another one (the PASTE handler hands on the message alone since da69db6)", ctors), "")
 	}
 }
